@@ -508,6 +508,8 @@ def run(ctx):
         msg = o if (o.startswith("DRIVER-DIED") or o == "<no answer>") else oracle_bse(c, o)
         if msg:
             spec_fail.append(("bse", c, o, msg))
+        model_in.append(c)
+        model_expect.append(("vocab", c, o.replace(" OVERWRITE", "")))        # compared as plain strings, like the vocabulary cases
     ctx.coverage["bounded_sequence_cases"] = len(bcases)
 
     # (2) the tool: same orders, mixed orders, single model
